@@ -10,6 +10,18 @@ CLAIMED = {
           "Machine-checked proof (Lean kernel) of every clause for all ranges over any ordered field with floor, no size bound; the executable model is the same Lean definitions at Float and is compared bit for bit with the implementation on exhaustive dyadic grids, 120 binades of random ranges and power-of-two edges on every run; the property is additionally evaluated exactly (rationals) on the implementation's outputs.",
           "Theorems speak about exact arithmetic; doubles are covered where operations are exact (the property's own domain) and by the bit-exact correspondence. Trusted: Lean kernel, Mathlib, axioms propext/Classical.choice/Quot.sound, the harness generators.",
           "DESIGN.md §5 C17"),
+  "C02": ("Lean 4 theorems for every salt/seed/noise function (hashes and deviate uninterpreted): rule, hard floor, monotonicity, threshold form, refinement of both entity counters to finite sets (order/duplicate/null invariance), saturation and cap bounds; bit-exact correspondence of is_low_count, both counters and the Synthesizer cap with the Float instance of the model (SHA-256/BLAKE2b/Box-Muller recomputed)",
+          "Machine-checked proof of the decision logic and of the set semantics of the counters for all entity multisets, insertion orders, salts and parameters; model tied to the code by bit-exact differential execution on every run; the property's clauses are also evaluated directly on the real counters (floor, metamorphic invariances, monotonicity, saturation). The pass probability Phi(.) is NOT proved: only that the pass set is a sub-level set of the deviate.",
+          "Distribution of Box-Muller o SHA-256 is trusted (probability clause is partial). Trusted: Lean kernel, Mathlib, standard axioms, harness generators.",
+          "DESIGN.md §5 C02"),
+  "C03": ("Lean 4 theorems: exactly two noise layers sd*z(H(salt,seed)) keyed by bucket seed and entity-set seed, stickiness (order/duplication independence of both seeds), hard bound 17 sd (Box-Muller bound proved over the reals), row-limit range and residue formula; bit-exact correspondence of counts, row limit, hashes and node counts with the Float model",
+          "Machine-checked proof of the structure of the noise (which inputs each layer depends on, how many layers, floor, bounds) for all inputs; bit-exact differential execution pins the implementation to the model; metamorphic oracle on the real code (sticky, unrelated under salt/bucket/entity change, two layers of the configured sd via sample moments). Zero mean / sd / independence are distributional and NOT proved.",
+          "Distribution of Box-Muller o SHA-256 trusted (partial). libm log/sqrt/sin in doubles not covered by the real-number bound.",
+          "DESIGN.md §5 C03"),
+  "C04": ("Lean 4 theorems: interval compaction total/never empty/never oversized (all intervals, all entity counts), flattened sum = oc*avg + tail and its min-bounds, id-less rows add within [0,u], invariance of count/noise scale/noise when the heaviest entities contribute more (over ordered fields); bit-exact correspondence of count_multiple_contributions and compaction (exhaustive small box) with the Float model",
+          "Machine-checked proof over all contribution vectors, ties, intervals and salts in exact arithmetic; implementation tied bit for bit; metamorphic oracle evaluates the invariance and the bounds on the real code.",
+          "T04.c proved for the computation after sorting (shape of the sorted list as hypothesis); doubles: exact-arithmetic cancellation may differ at a rounding tie (oracle covers the real code).",
+          "DESIGN.md §5 C04"),
 }
 NOT_YET = "check not built yet in this work session (model/theorems in progress); see DESIGN.md §5 for the plan"
 
